@@ -397,6 +397,94 @@ class Body:
         nm = callee_short(c)
         return "%s(%s)" % (nm, ", ".join(self.op_str(a, depth) for a in t["args"]))
 
+    # ---- canonical rendering (for keys that must survive behaviour-preserving edits) ------------
+    # What a value is computed from, independent of how the source spells it: locals with one definition are replaced
+    # by their definition, parameters by their position, locals assigned more than once by `~`, lossless conversions,
+    # borrows and `?` are transparent, checked and unchecked arithmetic render alike.
+    _TRANSPARENT = {"From::from", "Into::into", "Clone::clone", "Deref::deref", "DerefMut::deref_mut", "AsRef::as_ref", "AsMut::as_mut",
+                    "Borrow::borrow", "Try::branch", "Option::as_ref", "Option::as_mut", "IntoIterator::into_iter"}
+
+    def canon_local(self, l, depth=0):
+        if self.is_arg(l):
+            return "$%d" % l
+        if l == 0:
+            return "ret"
+        if depth > 8:
+            return "_"
+        sd = self.single_def(l)
+        if sd is None:
+            return "~"
+        b, i, kind, payload = sd
+        if kind == "call":
+            return self.canon_call(payload, depth + 1)
+        return self.canon_rv(payload, depth + 1)
+
+    def canon_place(self, pl, depth=0):
+        out = self.canon_local(pl["l"], depth)
+        for p in pl["p"]:
+            if p == "deref":
+                continue
+            if isinstance(p, dict) and "f" in p:
+                f = p["f"]
+                # `.0` of a checked-arithmetic pair is the arithmetic result; `.0` of a `?` Continue / Some / Ok payload is the value
+                if f in ("0",) and (out.endswith(")") and re_match_arith(out) or out.endswith(">")):
+                    continue
+                out += "." + f
+            elif isinstance(p, dict) and "downcast" in p:
+                if p["downcast"] in ("Continue", "Some", "Ok"):
+                    out += ">"
+                else:
+                    out += "<" + p["downcast"] + ">"
+            elif isinstance(p, dict) and "index" in p:
+                out += "[" + self.canon_local(p["index"], depth + 1) + "]"
+            elif isinstance(p, dict) and "cidx" in p:
+                out += "[%d]" % p["cidx"]
+            else:
+                out += proj_key(p)
+        return out.replace(">", "")
+
+    def canon_op(self, op, depth=0):
+        if "const" in op:
+            c = op["const"]
+            if c.get("val") is not None:
+                return str(c["val"])
+            if c.get("fn"):
+                return c["fn"].split("::")[-1]
+            if c.get("def"):
+                return c["def"].split("::")[-1]
+            return c.get("s", "const")
+        pl = op_place(op)
+        if pl is None:
+            return "?"
+        return self.canon_place(pl, depth)
+
+    def canon_rv(self, rv, depth=0):
+        k = rv["k"]
+        if k in ("use", "cast"):
+            return self.canon_op(rv["a"], depth)
+        if k == "bin":
+            op = rv["op"].replace("WithOverflow", "").replace("Unchecked", "")
+            return "%s(%s, %s)" % (op, self.canon_op(rv["a"], depth), self.canon_op(rv["b"], depth))
+        if k == "un":
+            return "%s(%s)" % (rv["op"], self.canon_op(rv["a"], depth))
+        if k == "ref":
+            return self.canon_place(rv["place"], depth)
+        if k == "discr":
+            return "discr(%s)" % self.canon_place(rv["place"], depth)
+        if k == "agg":
+            if rv.get("ak") == "adt":
+                return "%s::%s(%s)" % (rv["adt"].split("::")[-1], rv["variant"], ", ".join(self.canon_op(o, depth) for o in rv["ops"]))
+            return "(%s)" % ", ".join(self.canon_op(o, depth) for o in rv["ops"])
+        if k == "repeat":
+            return "[%s; %s]" % (self.canon_op(rv["a"], depth), rv.get("n"))
+        return k
+
+    def canon_call(self, t, depth=0):
+        nm = callee_short(t["callee"])
+        if nm in self._TRANSPARENT and t["args"]:
+            return self.canon_op(t["args"][0], depth)
+        return "%s(%s)" % (nm, ", ".join(self.canon_op(a, depth) for a in t["args"]))
+
     # ---- iteration helpers ----------------------------------------------------
     def calls(self, reachable_only=True):
         """yield (bb, terminator) for every Call terminator"""
@@ -414,6 +502,28 @@ class Body:
             t = self.term(b)
             if t["k"] == "assert":
                 yield b, t
+
+
+_ARITH_RE = None
+
+
+def re_match_arith(s):
+    """does the rendering end with a checked arithmetic expression `Op(a, b)`?"""
+    import re
+    global _ARITH_RE
+    if _ARITH_RE is None:
+        _ARITH_RE = re.compile(r"(?:^|[ (,\[])(Add|Sub|Mul|Shl|Shr|Neg)\(")
+    # find the opening of the last balanced parenthesis group
+    depth = 0
+    for i in range(len(s) - 1, -1, -1):
+        if s[i] == ")":
+            depth += 1
+        elif s[i] == "(":
+            depth -= 1
+            if depth == 0:
+                head = s[:i]
+                return head.endswith(("Add", "Sub", "Mul", "Shl", "Shr", "Neg"))
+    return False
 
 
 def callee_path(c):
